@@ -47,10 +47,20 @@ static void judge(vf::Ctx& ctx, SVD& svd, const MatXd& A, const Eigen::VectorXd&
     if (!all_finite(U) || !all_finite(V)) { bad("non-finite-factor", 0, 0); return; }
     const LD smin = (LD) s[kk - 1];
     const LD mn = std::max(std::min(m, n), 10);
+    // all ncomp converged: positional comparison with the leading reference values; partly converged: each returned value is one of the ncomp leading ones (distinct)
+    std::vector<char> used((size_t) ncomp, 0);
     for (long i = 0; i < kk; i++)
     {
-        const LD al = (G * (LD) tol * nA * nA + C * mn * u * nA * nA) / (LD) sref[i];
-        if (!within(ctx, std::string(tag.empty() ? "" : "corpus:") + "singular-value", std::abs((LD) s[i] - (LD) sref[i]), al)) bad("singular-value-differs-from-reference", std::abs((LD) s[i] - (LD) sref[i]), al);
+        long j = i;
+        if (nconv < ncomp)
+        {
+            LD best = std::numeric_limits<LD>::infinity();
+            for (long q = 0; q < ncomp && q < (long) sref.size(); q++)
+                if (!used[(size_t) q] && std::abs((LD) s[i] - (LD) sref[q]) < best) { best = std::abs((LD) s[i] - (LD) sref[q]); j = q; }
+            used[(size_t) j] = 1;
+        }
+        const LD al = (G * (LD) tol * nA * nA + C * mn * u * nA * nA) / std::max<LD>((LD) sref[j], 1e-300L);
+        if (!within(ctx, std::string(tag.empty() ? "" : "corpus:") + "singular-value", std::abs((LD) s[i] - (LD) sref[j]), al)) bad("singular-value-differs-from-reference", std::abs((LD) s[i] - (LD) sref[j]), al);
     }
     const LD stretch = (nA / smin) * (nA / smin);
     const LD oal = (G * (LD) tol + C * mn * u) * stretch;
